@@ -94,6 +94,15 @@ def lpEngine (db : PerpDb) (args : List String) : PerpDb × String :=
         | some v => lpReply db sid s s.m s!"ok {v}"
         | none => lpReply db sid s s.m "err Fail"
       | _, _, _ => (db, "bad-op")
+  | ["setclock", sid, k, v] =>
+    match perpGet db sid, allNat [k, v] with
+    | some s, some [k, v] =>
+      if v ≥ 2 ^ 64 then (db, "bad-op") else
+      if k = 0 then lpReply db sid s { s.m with clockImpactDist := some v } "ok"
+      else if k = 1 then lpReply db sid s { s.m with clockBorrowing := some v } "ok"
+      else if k = 2 then lpReply db sid s { s.m with clockFunding := some v } "ok"
+      else (db, "bad-op")
+    | _, _ => (db, "bad-op")
   | _ => perpEngine db args
 
 end Gmx.Drv.LpE
